@@ -27,6 +27,7 @@
 #include <tbox/flow/actions/composite_action.h>
 #include <tbox/flow/action_executor.h>
 #include <map>
+#include <deque>
 
 using namespace tbox;
 using namespace tbox::flow;
@@ -261,6 +262,15 @@ static bool do_call(const Call &c) {
     }
 }
 
+// one-shot callback scripts of the root: every invocation of the callback takes the next script and makes its
+// control calls on the root from inside the callback
+static std::deque<std::vector<Call>> scr_final, scr_fin, scr_blk;
+static void run_script(std::deque<std::vector<Call>> &q) {
+    if (q.empty()) return;
+    std::vector<Call> cs = std::move(q.front()); q.pop_front();
+    for (auto &c : cs) ev(std::string("ret ") + (do_call(c) ? "1" : "0"));
+}
+
 int main() {
     LogOutput_Disable();
     vt::enable(1000, 1700000000000LL);
@@ -329,9 +339,12 @@ int main() {
             }
             drop_tree();
             root = t; nodes = ps.made; dummies = ps.dums;
+            scr_final.clear(); scr_fin.clear(); scr_blk.clear();
             root->setFinishCallback([](bool s, const Action::Reason &why, const Action::Trace &) {
-                ev("fin " + std::to_string(s ? 1 : 0) + " " + std::to_string(why.code)); });
-            root->setBlockCallback([](const Action::Reason &why, const Action::Trace &) { ev("blk " + std::to_string(why.code)); });
+                ev("fin " + std::to_string(s ? 1 : 0) + " " + std::to_string(why.code)); run_script(scr_fin); });
+            root->setBlockCallback([](const Action::Reason &why, const Action::Trace &) { ev("blk " + std::to_string(why.code)); run_script(scr_blk); });
+            if (auto as = dynamic_cast<AssembleAction*>(root))
+                as->setFinalCallback([] { ev("final 0"); run_script(scr_final); });
             std::cout << "P tree n=" << nodes.size() << " s=" << snapshot() << "\n";
             return;
         }
@@ -348,6 +361,11 @@ int main() {
                 loop->runNext([cs] { for (auto &c : cs) ev(std::string("ret ") + (do_call(c) ? "1" : "0")); }, "verif-defer");
             }
             pending = true;
+        } else if (w[0] == "cb" && w.size() >= 3 && w.size() <= 8 && (w[1] == "final" || w[1] == "fin" || w[1] == "blk")) {
+            std::vector<Call> cs;
+            for (size_t i = 2; i < w.size(); ++i) { Call c; if (!parse_call(w[i], c) || c.kind == 5) { std::cout << "bad-op\n"; return; } cs.push_back(c); }
+            (w[1] == "final" ? scr_final : w[1] == "fin" ? scr_fin : scr_blk).push_back(cs);
+            pending_rets = "-"; pending = true;
         } else if (w[0] == "adv" && w.size() == 2 && vh::to_u64(w[1], k) && k <= 100) {
             vt::advance_ms((int64_t)(100 * k)); pending_rets = "-"; pending = true;
         } else if (w[0] == "pass" && w.size() == 1) {
